@@ -27,25 +27,61 @@ type region struct {
 	revOf     []int // indices of (original, revision, probe) when a revision exists
 	focus     []int // when set, geometry arguments are drawn from these operands only
 	heapOut   int   // allocations that did not fit and went to the Go heap
+	cursor    [classCount]int
 }
 
+// One region per process, reused by every run: like a real allocator's size
+// classes, a sequence of n floats is placed where the previous run's sequences
+// of n floats were (state a library keys by address — a cache that remembers
+// an array's address as a uintptr — then meets a different sequence at a
+// known address, exactly as it does after a garbage collection).
+var processRegion *region
+
+const (
+	regionFloats   = 1 << 21 // 16 MiB of address space; only touched pages cost memory
+	classSlots     = 2048    // floats reserved per size class
+	classCount     = 512
+	generalAreaOff = classSlots * classCount
+)
+
 func newRegion(nfloats int) (*region, error) {
-	sz := (nfloats*8 + 4095) &^ 4095
-	mem, err := syscall.Mmap(-1, 0, sz, syscall.PROT_READ|syscall.PROT_WRITE, syscall.MAP_ANON|syscall.MAP_PRIVATE)
-	if err != nil {
+	if processRegion == nil {
+		mem, err := syscall.Mmap(-1, 0, regionFloats*8, syscall.PROT_READ|syscall.PROT_WRITE, syscall.MAP_ANON|syscall.MAP_PRIVATE)
+		if err != nil {
+			return nil, err
+		}
+		processRegion = &region{mem: mem, floats: unsafe.Slice((*float64)(unsafe.Pointer(&mem[0])), regionFloats)}
+	}
+	r := processRegion
+	if err := syscall.Mprotect(r.mem, syscall.PROT_READ|syscall.PROT_WRITE); err != nil {
 		return nil, err
 	}
-	return &region{mem: mem, floats: unsafe.Slice((*float64)(unsafe.Pointer(&mem[0])), sz/8)}, nil
+	r.frozen = false
+	r.used = generalAreaOff
+	r.heapOut = 0
+	for i := range r.cursor {
+		r.cursor[i] = 0
+	}
+	return r, nil
 }
 
 func (r *region) alloc(n int) []float64 {
 	if n == 0 {
 		return nil
 	}
-	if r == nil || r.frozen || r.used+n > len(r.floats) {
+	if r == nil || r.frozen {
 		if r != nil {
 			r.heapOut++
 		}
+		return make([]float64, n)
+	}
+	if n < classCount && r.cursor[n]+n <= classSlots {
+		off := n*classSlots + r.cursor[n]
+		r.cursor[n] += n
+		return r.floats[off : off+n : off+n]
+	}
+	if r.used+n > len(r.floats) {
+		r.heapOut++
 		return make([]float64, n)
 	}
 	s := r.floats[r.used : r.used+n : r.used+n]
@@ -70,12 +106,8 @@ func (r *region) freeze() error {
 	return syscall.Mprotect(r.mem, syscall.PROT_READ)
 }
 
-func (r *region) release() {
-	if r != nil && r.mem != nil {
-		syscall.Munmap(r.mem)
-		r.mem = nil
-	}
-}
+// release ends a run's use of the region (it stays mapped for the next run).
+func (r *region) release() {}
 
 func (r *region) contains(addr uintptr) bool {
 	if r == nil || r.mem == nil {
